@@ -59,3 +59,16 @@ register('C05', 'translation_validation',
          "calls whose arguments are all literals, index helpers, E and complex values are outside; _preprocess_dde_syntax "
          "is regex based and covered through C10 programs only",
          "SMT translation validation of both evaluation paths (symx + z3) + CrossHair on string helpers", "7/C05")
+register('C20', 'other',
+         "CrossHair decides, for every string within the length bound, that each backend's _solve either raises or "
+         "calls exactly the kernel named by the solver (Base, Torch, JAX, Fortran), that every reserved name / name part "
+         "is rejected by check_vname, and that _validate_backend_args rejects exactly vectorised Fortran and path-less "
+         "Julia. The finite matrix backend x solver x vectorize x delay kind (and backend x sparse x vectorize for "
+         "Jacobians) and every malformed variant of a valid model (each path component of each edge endpoint, output, "
+         "input, update misspelt; declaration removed; reserved name; two outputs; cyclic node; unknown operator) are "
+         "executed against the real pipeline and classified raises / warns / returns against the class derived from the "
+         "code's own declarations.",
+         "the matrix and the malformed variants are exhaustive enumerations of finite spaces, not solver verdicts; "
+         "Fortran cells end at the missing f2py/meson tool chain (the guard itself is decided by CrossHair); cells that "
+         "return are not re-validated numerically here (see C02/C09/C10)",
+         "CrossHair on guard functions (symbolic strings) + exhaustive configuration/malformed-variant enumeration", "7/C20")
